@@ -73,9 +73,11 @@ pub fn env_strategy() -> BoxedStrategy<EnvCase> {
         u64_edges(),
         u64_edges(),
         "[a-z0-9-]{1,12}",
-        "[a-z0-9]{1,16}",
+        // contract address: any string is an `Addr::unchecked`; a quarter carry capitals
+        // (checksummed hex, mixed-case names)
+        prop_oneof![6 => "[a-z0-9]{1,16}", 1 => "[A-Za-z0-9]{1,20}", 1 => "0x[0-9a-fA-F]{40}"],
         proptest::option::of(any::<u32>()),
-        "[a-z0-9]{1,12}",
+        prop_oneof![6 => "[a-z0-9]{1,12}", 1 => "[A-Za-z0-9]{1,16}"],
         proptest::collection::vec(
             (prop_oneof![2 => "[a-z]{3,6}", 1 => Just("uatom".to_string()), 1 => Just("uosmo".to_string())], prop_oneof![3 => any::<u128>(), 2 => Just(0u128), 1 => Just(1u128), 1 => Just(u128::MAX)]),
             0..6,
